@@ -1,0 +1,54 @@
+//go:build verif
+
+package convert
+
+// Contracts for govc (see /verif/DESIGN.md). Comment-only file: it adds no code.
+//
+// Ownership: the unification helpers return a conversion slice that they
+// allocated themselves; callers (unifyTuplesAsList, unifyObjectsAsMaps) patch
+// entries of it in place.
+//
+//@ func convert.unify
+//@   tags C20
+//@   frame_only
+//@   fresh result.1 when (not (= (Slice.ptr result.1) 0))
+//
+//@ func convert.unifyCollectionTypes
+//@   tags C20
+//@   frame_only
+//@   fresh result.1 when (not (= (Slice.ptr result.1) 0))
+//
+//@ func convert.unifyObjectTypes
+//@   tags C20
+//@   frame_only
+//@   fresh result.1 when (not (= (Slice.ptr result.1) 0))
+//
+//@ func convert.unifyObjectTypesToMap
+//@   tags C20
+//@   frame_only
+//@   fresh result.1 when (not (= (Slice.ptr result.1) 0))
+//
+//@ func convert.unifyTupleTypes
+//@   tags C20
+//@   frame_only
+//@   fresh result.1 when (not (= (Slice.ptr result.1) 0))
+//
+//@ func convert.unifyTupleTypesToList
+//@   tags C20
+//@   frame_only
+//@   fresh result.1 when (not (= (Slice.ptr result.1) 0))
+//
+//@ func convert.unifyTuplesAsList
+//@   tags C20
+//@   frame_only
+//@   fresh result.1 when (not (= (Slice.ptr result.1) 0))
+//
+//@ func convert.unifyObjectsAsMaps
+//@   tags C20
+//@   frame_only
+//@   fresh result.1 when (not (= (Slice.ptr result.1) 0))
+//
+//@ func convert.unifyAllAsDynamic
+//@   tags C20
+//@   frame_only
+//@   fresh result.1 when (not (= (Slice.ptr result.1) 0))
